@@ -5,7 +5,7 @@
 //! what the real types answer.
 //! Oracle (`out.fail`): an independent RFC 4648 codec written below (bit accumulator, alphabet from character
 //! ranges) judges the implementation directly; it states the property only:
-//!   * encode(any partition of d) == rfc(d)
+//!   * encode(any partition of d, any flushes) == rfc(d), also as the text that ARRIVES in an inner writer with short writes
 //!   * reading rfc(d) through any reader schedule (Interrupted calls included) and any buffer sizes gives d, then end of input
 //!   * text with length % 4 != 0 ends in an error, never in a clean end of input
 //!   * no input panics
@@ -135,6 +135,70 @@ fn run_encoder(ops: &[Op]) -> EncOut {
         Err(()) => EncOut::Panic,
         Ok(Err(_)) => EncOut::IoErr,
         Ok(Ok(v)) => EncOut::Ok(v),
+    }
+}
+
+/// an inner writer with short writes: per-call maxima (0 = Interrupted), then at most `tail` bytes per call
+/// (0 = everything), and optionally a capacity after which `write` returns `Ok(0)`
+#[derive(Debug, Clone, PartialEq)]
+struct SinkSpec {
+    sched: Vec<usize>,
+    tail: usize,
+    room: Option<usize>,
+}
+
+struct SchedSink {
+    arrived: std::rc::Rc<std::cell::RefCell<Vec<u8>>>,
+    spec: SinkSpec,
+    call: usize,
+}
+
+impl Write for SchedSink {
+    fn write(&mut self, buf: &[u8]) -> std::io::Result<usize> {
+        let per = match self.spec.sched.get(self.call) {
+            Some(0) => {
+                self.call += 1;
+                return Err(std::io::Error::from(std::io::ErrorKind::Interrupted));
+            }
+            Some(m) => {
+                self.call += 1;
+                *m
+            }
+            None if self.spec.tail == 0 => buf.len(),
+            None => self.spec.tail,
+        };
+        let mut k = per.min(buf.len());
+        if let Some(r) = self.spec.room {
+            k = k.min(r);
+            self.spec.room = Some(r - k);
+        }
+        self.arrived.borrow_mut().extend_from_slice(&buf[..k]);
+        Ok(k)
+    }
+    fn flush(&mut self) -> std::io::Result<()> {
+        Ok(())
+    }
+}
+
+/// run the encoder over the sink; the run ends at the first I/O error. Returns (outcome, what ARRIVED in the sink)
+fn run_encoder_sink(spec: &SinkSpec, ops: &[Op]) -> (EncOut, Vec<u8>) {
+    let arrived = std::rc::Rc::new(std::cell::RefCell::new(Vec::new()));
+    let sink = SchedSink { arrived: arrived.clone(), spec: spec.clone(), call: 0 };
+    let r = guarded(|| -> std::io::Result<()> {
+        let mut enc = Base64Encoder::new(sink);
+        for op in ops {
+            match op {
+                Op::Write(c) => enc.write_all(c)?,
+                Op::Flush => enc.flush()?,
+            }
+        }
+        enc.finish().map(|_| ())
+    });
+    let got = arrived.borrow().clone();
+    match r {
+        Err(()) => (EncOut::Panic, got),
+        Ok(Err(_)) => (EncOut::IoErr, got),
+        Ok(Ok(())) => (EncOut::Ok(got.clone()), got),
     }
 }
 
@@ -303,6 +367,7 @@ struct Ctx {
     out: Out,
     seen: HashSet<String>,
     spec_seen: HashSet<Vec<u8>>,
+    sink_spec_seen: HashSet<(Vec<u8>, Vec<u8>)>,
 }
 
 fn split(data: &[u8], cuts: &[usize]) -> Vec<Vec<u8>> {
@@ -352,6 +417,61 @@ impl Ctx {
         }
         if self.out.evaluations % 1013 == 1 {
             self.out.sample(json!({"request": req, "impl": got_s}));
+        }
+    }
+
+    /// the encoder over an inner writer with short writes: what ARRIVED must be the RFC text
+    fn enc_sink_case(&mut self, kind: &str, spec: &SinkSpec, ops: &[Op]) {
+        let data: Vec<u8> = ops.iter().flat_map(|o| if let Op::Write(c) = o { c.clone() } else { vec![] }).collect();
+        let (got, arrived) = run_encoder_sink(spec, ops);
+        let got_s = match &got {
+            EncOut::Ok(_) => format!("ok {}", hex(&arrived)),
+            EncOut::IoErr => format!("ioerr {}", hex(&arrived)),
+            EncOut::Panic => "panic".to_string(),
+        };
+        let room = spec.room.map(|r| r.to_string()).unwrap_or("-".to_string());
+        let req = format!("c14 encsink {} {} {} {}", csv(&spec.sched), spec.tail, room, ops.iter().map(op_tok).collect::<Vec<_>>().join(" "));
+        let req = req.trim_end().to_string();
+        self.out.case(&req, !data.is_empty());
+        for k in kind.split(',') {
+            self.out.hist(&format!("encsink:{k}"));
+        }
+        self.out.hist(match &got {
+            EncOut::Ok(_) => "encsink:end=ok",
+            EncOut::IoErr => "encsink:end=ioerr",
+            EncOut::Panic => "encsink:end=panic",
+        });
+        if self.seen.insert(req.clone()) {
+            self.out.corr(&req, &got_s);
+        }
+        let expected = rfc_encode(&data);
+        let input = json!({"op": "encsink", "ops": ops.iter().map(op_tok).collect::<Vec<_>>(), "data": hex(&data),
+            "sched": spec.sched, "tail": spec.tail, "room": spec.room});
+        match &got {
+            EncOut::Ok(_) => {
+                // the verified specification applied to the data must give what arrived
+                if self.sink_spec_seen.insert((data.clone(), arrived.clone())) {
+                    self.out.oracle(&format!("c14 spec {}", hex(&data)), &hex(&arrived));
+                }
+                if arrived != expected {
+                    self.out.fail(
+                        "Base64Encoder reports success but the text that arrived in the inner writer is not the RFC 4648 encoding of the written bytes",
+                        input,
+                        json!(format!("ok {}", hex(&expected))),
+                        json!(got_s),
+                    );
+                }
+            }
+            EncOut::IoErr if spec.room.is_none() => {
+                self.out.fail("Base64Encoder reports an I/O error although the inner writer never fails", input, json!(format!("ok {}", hex(&expected))), json!(got_s));
+            }
+            EncOut::IoErr => {}
+            EncOut::Panic => {
+                self.out.fail("Base64Encoder panics", input, json!(format!("ok {}", hex(&expected))), json!(got_s));
+            }
+        }
+        if self.out.evaluations % 1013 == 1 {
+            self.out.sample(json!({"request": req.chars().take(300).collect::<String>(), "impl": got_s.chars().take(300).collect::<String>()}));
         }
     }
 
@@ -467,6 +587,19 @@ fn schedules(rng: &mut Rng, text_len: usize, thorough: bool) -> Vec<(&'static st
         v.push(("sched=random", ((0..n).map(|_| 1 + rng.below(9) as usize).collect(), rng.below(9) as usize)));
         v.push(("sched=short-then-all", ((0..rng.below(n as u64 + 1) as usize).map(|_| 1 + rng.below(3) as usize).collect(), 0)));
     }
+    v
+}
+
+fn sinks(rng: &mut Rng, text_len: usize) -> Vec<(&'static str, SinkSpec)> {
+    let n = text_len + 8;
+    let mut v: Vec<(&'static str, SinkSpec)> = Vec::new();
+    for (name, k) in [("sink=1", 1usize), ("sink=2", 2), ("sink=3", 3), ("sink=4", 4), ("sink=5", 5)] {
+        v.push((name, SinkSpec { sched: vec![], tail: k, room: None }));
+    }
+    v.push(("sink=random", SinkSpec { sched: (0..n).map(|_| 1 + rng.below(5) as usize).collect(), tail: rng.below(4) as usize, room: None }));
+    v.push(("sink=interrupts", SinkSpec { sched: (0..n + n / 2).map(|_| rng.below(5) as usize).collect(), tail: rng.below(3) as usize, room: None }));
+    // a writer that becomes full (like a fixed slice): success only if the whole text fits
+    v.push(("sink=full", SinkSpec { sched: (0..rng.below(8) as usize).map(|_| rng.below(4) as usize).collect(), tail: rng.below(4) as usize, room: Some(rng.below(text_len as u64 + 3) as usize) }));
     v
 }
 
@@ -658,6 +791,25 @@ fn replay(ctx: &mut Ctx, input: &Value) {
             let sched: Sched = (usizes(&input["sched"]), input["tail"].as_u64().unwrap_or(0) as usize);
             ctx.dec_case("replay", &text, plain.as_deref(), &sched, &dst);
         }
+        Some("encsink") => {
+            let ops: Vec<Op> = input["ops"]
+                .as_array()
+                .map(|a| {
+                    a.iter()
+                        .map(|c| match c.as_str().unwrap_or("-") {
+                            "flush" => Op::Flush,
+                            h => Op::Write(unhex(h)),
+                        })
+                        .collect()
+                })
+                .unwrap_or_default();
+            let spec = SinkSpec {
+                sched: usizes(&input["sched"]),
+                tail: input["tail"].as_u64().unwrap_or(0) as usize,
+                room: input["room"].as_u64().map(|r| r as usize),
+            };
+            ctx.enc_sink_case("replay", &spec, &ops);
+        }
         Some("wouldblock") => {
             let g = |k: &str| input[k].as_u64().unwrap_or(1) as usize;
             ctx.wouldblock_case(&unhex(input["data"].as_str().unwrap_or("-")), g("per_call"), g("fail_at"), g("size").max(1));
@@ -666,7 +818,7 @@ fn replay(ctx: &mut Ctx, input: &Value) {
     }
 }
 
-const RULE: &str = "encoder: every length 0..=L (L = 200 quick / 400 thorough) of random bytes plus all-sextet / all-byte covering data, each in the partitions whole, 1, 2, 4 and random cuts (empty chunks included), with and without flush() calls (after every write, at random points); decoder round trip: RFC text of the same data x reader schedules {unrestricted, 1, 2, 3, 4, 5, 7, 64 per call for ever, random 1..5 per call, random with Interrupted} x destinations {read sizes 1, 2, 3, 63, 64, 65, 4096, random mix incl. 0; read_to_end; read_to_string on UTF-8 data} (every read call std makes is recorded and compared) (full product up to length 400, two data per white-box length 0-4, 46-50, 62-67, 83-86, 93-97, 125-128, 189-192; a rotating quarter of the product for the long random data of the thorough tier); malformed: random bytes, alphabet-only text of every length mod 4, stray padding, damaged valid text, padded groups in mid-stream (reaches buffer sizes 61, 62, 64); transient WouldBlock of the reader: no panic, error not swallowed (no correspondence; out of the property's scope); non-trivial = non-empty data/text; distinct by request line";
+const RULE: &str = "encoder: every length 0..=L (L = 200 quick / 400 thorough) of random bytes plus all-sextet / all-byte covering data, each in the partitions whole, 1, 2, 4 and random cuts (empty chunks included), with and without flush() calls (after every write, at random points), each over a Vec and over inner writers with short writes {1, 2, 3, 4, 5 bytes per call for ever, random 1..5, random with Interrupted, a writer that becomes full} - judged on the text that ARRIVED in the writer; decoder round trip: RFC text of the same data x reader schedules {unrestricted, 1, 2, 3, 4, 5, 7, 64 per call for ever, random 1..5 per call, random with Interrupted} x destinations {read sizes 1, 2, 3, 63, 64, 65, 4096, random mix incl. 0; read_to_end; read_to_string on UTF-8 data} (every read call std makes is recorded and compared) (full product up to length 400, two data per white-box length 0-4, 46-50, 62-67, 83-86, 93-97, 125-128, 189-192; a rotating quarter of the product for the long random data of the thorough tier); malformed: random bytes, alphabet-only text of every length mod 4, stray padding, damaged valid text, padded groups in mid-stream (reaches buffer sizes 61, 62, 64); transient WouldBlock of the reader: no panic, error not swallowed (no correspondence; out of the property's scope); non-trivial = non-empty data/text; distinct by request line";
 
 fn main() {
     let cfg = Cfg::from_env();
@@ -675,7 +827,7 @@ fn main() {
         return;
     }
     silence_panics();
-    let mut ctx = Ctx { out: cfg.out(), seen: HashSet::new(), spec_seen: HashSet::new() };
+    let mut ctx = Ctx { out: cfg.out(), seen: HashSet::new(), spec_seen: HashSet::new(), sink_spec_seen: HashSet::new() };
     if let Some(r) = &cfg.replay {
         let input = r["failure"]["input"].clone();
         replay(&mut ctx, &input);
@@ -717,8 +869,13 @@ fn main() {
 
     let mut rot = 0usize;
     for data in &datas {
+        let text_len = 4 * data.len().div_ceil(3);
         for (kind, ops) in partitions(&mut rng, data, cfg.thorough) {
             ctx.enc_case(kind, &ops);
+            // the same partition over inner writers with short writes
+            for (sk, spec) in sinks(&mut rng, text_len) {
+                ctx.enc_sink_case(&format!("{sk},{kind}"), &spec, &ops);
+            }
         }
         let text = rfc_encode(data);
         let scheds = schedules(&mut rng, text.len(), cfg.thorough);
